@@ -3880,7 +3880,8 @@ class Wallet(object):
                 script_type = get_unlocking_script_type(utxo.script_type, multisig=multisig)
                 inputs.append(Input(utxo.transaction.txid, utxo.output_n, keys=inp_keys, script_type=script_type,
                               sigs_required=self.multisig_n_required, sort=self.sort_keys, address=key.address,
-                              compressed=key.compressed, value=utxo.value, network=key.network_name))
+                              compressed=key.compressed, value=utxo.value, network=key.network_name,
+                              witness_type=key.witness_type))
             return inputs
 
     def transaction_create(self, output_arr, input_arr=None, input_key_id=None, account_id=None, network=None, fee=None,
